@@ -44,6 +44,9 @@ func WorkerMain(workDir string, runFn func(sc *Scenario, dir string) *Result) {
 
 // DefaultRun runs one scenario on a fresh network.
 func DefaultRun(sc *Scenario, dir string) *Result {
+	if sc.Solo != nil {
+		return RunSolo(sc, dir)
+	}
 	nt := NewNet(sc, dir)
 	res := nt.Run()
 	nt.StopAll()
